@@ -169,7 +169,7 @@ func checkProperty(prop, tier, repo, verif string, seed int, t0 time.Time) int {
 	var vcs []*VC
 	var fnames []string
 	for _, fc := range eng.db.order {
-		if fc.Kind != "func" {
+		if fc.Kind != "func" || fc.Trusted {
 			continue
 		}
 		has := false
